@@ -1,3 +1,4 @@
 import HoloGen.Math
 import HoloGen.Proj
 import HoloGen.Tables
+import HoloGen.TmGuards
